@@ -274,6 +274,10 @@ var templates = []func(u string) string{
 			"try { throw \"t\" + base } catch h" + u + " { h" + u + ".Message = \"x\"; rec(h" + u + ".Message) }"
 	},
 	func(u string) string {
+		// a member of an imported package is the importer's own binding: writing through its address stays here
+		return "vp" + u + " = &import(\"vpk\").Default\nrec(*vp" + u + ")\n*vp" + u + " = base\nrec(*vp" + u + ")\nfunc vf" + u + "(m) { vq" + u + " = &m.Default; rec(*vq" + u + "); *vq" + u + " = hostUp(\"v\"); return *vq" + u + " }\nrec(vf" + u + "(import(\"vpk\")))\nrec(import(\"vpk\").Default)\nrec(import(\"vpk\").Name)"
+	},
+	func(u string) string {
 		// large but legal requests (a channel buffer of 70 000 and of 1 100 000 items, a slice of 300 000): whether a
 		// tree grants or refuses them, what a catch block writes into the refusal stays in this run
 		return "func bz" + u + "(n) {\nbr" + u + " = 0\ntry { bc" + u + " = make(chan bool, n); br" + u + " = len(bc" + u + ") } catch be" + u + " { be" + u + ".Message = \"d:\" + be" + u + ".Message; br" + u + " = be" + u + ".Message }\nreturn br" + u + "\n}\n" +
@@ -310,7 +314,12 @@ func Render(w *Work) string {
 
 type Prop struct{}
 
-func init() { harness.Register(Prop{}) }
+func init() {
+	harness.Register(Prop{})
+	// a package table of the host's own, written as env.go documents it ("reflect.Value must be valid ... For nil
+	// must use NilValue")
+	env.Packages["vpk"] = map[string]reflect.Value{"Default": env.NilValue, "Name": reflect.ValueOf("vpk")}
+}
 
 func (Prop) ID() string { return "C14" }
 
@@ -780,6 +789,12 @@ func ProcessGlobals() string {
 	globalsOnce.Do(func() { globalsRef = got })
 	if got != globalsRef {
 		return "got " + got + ", the same script gave " + globalsRef + " when this process started"
+	}
+	if x, err := vm.Execute(env.NewEnv(), nil, "import(\"vpk\").Default"); err != nil || x != nil {
+		return fmt.Sprintf("a fresh environment importing a host package whose table binds Default to the documented env.NilValue reads Default as %v (error %v)", x, err)
+	}
+	if x, _ := env.NewEnv().Get("nosuchsymbol"); x != nil {
+		return fmt.Sprintf("Get of an undefined symbol on a brand-new environment returns %v next to its error", x)
 	}
 	return typeBindings()
 }
